@@ -96,6 +96,9 @@ class MPEGAdaptionExtension(object):
         self.ltw_flag = bool((_flags >> 7) & 0x1)
         self.piecewise_rate_flag = bool((_flags >> 6) & 0x1)
         self.seamless_splice_flag = bool((_flags >> 5) & 0x1)
+        self.ltw = bytes()
+        self.piecewise = bytes()
+        self.seamless_splice = bytes()
         offset = 2
         if self.ltw_flag:
             self.ltw = payload[offset : offset + 2]
